@@ -189,7 +189,8 @@ class FormatMachine(MachineBase):
         self.check_canonical(text)
         self.count("C08", ["canon", self.FORMAT, self.abstract(s)])
         self.file_invariants(s, text, op)
-        exp_now = None if s.tainted else self.expected_loaded(s)
+        # an object the model calls UNSPECIFIED has no round-trip oracle either
+        exp_now = None if (s.tainted or verdict == UNSPEC) else self.expected_loaded(s)
         self.durable[path] = {"expected": exp_now, "bytes": after, "clean": True,
                               "kw": dict((k, op[k]) for k in ("main_variant",) if k in op)}
         if exp_now is not None and self.order_ambiguous(exp_now):
